@@ -13,7 +13,7 @@ def gen(rnd):
     return s
 def seeded(U, rnd, quick):
     jobs = []
-    for r in range(4 if quick else 40):
+    for r in range(4 if quick else 120):
         texts = set()
         while len(texts) < 150: texts.add(gen(rnd))
         jobs.append({"k": "matrix", "eco": "pypi", "tag": "seeded", "texts": sorted(texts), "part": []})
